@@ -2,6 +2,8 @@
 cattrs resolves the annotations of these classes)."""
 from typing import NamedTuple, TypedDict, Union
 
+import dataclasses
+
 import attrs
 
 
@@ -40,3 +42,38 @@ class TA:
 @attrs.define
 class TB:
     y: int
+
+
+@attrs.define
+class M0:
+    a: int = 0
+    b: int = 0
+
+
+@attrs.define
+class M1:
+    a: int = 0
+    c: int = 0
+
+
+@dataclasses.dataclass
+class M2:
+    d: int = 0
+
+
+@attrs.define
+class M3:
+    kind: int = 0
+    e: int = 0
+
+
+@attrs.define
+class M0Sub(M0):
+    z: int = 0
+
+
+@attrs.define
+class Outside:
+    q: int = 0
+
+
